@@ -199,20 +199,47 @@ theorem C09_select_by_keys (l : List KV) (hn : (keysOf l).Nodup) (keys : List Va
     valuesByKeys l keys = keys.filterMap (fun k => (kvFind l k).map (fun v => (k, v))) :=
   valuesByKeysAux_eq l hn keys [] hk (by simp)
 
-/-- Selecting a missing key of an explicitly named element is an error. -/
-def C09_missing_key_statement : Prop :=
-  ∀ (s : Db) (q : QId) (id : Int) (keys : List Val) (k : Val), s.Inv → s.dbId q = .ok id → keys.Nodup → k ∈ keys →
-    kvFind (kvGet s.values id.natAbs) k = none → s.selectValues [q] keys = .error Err.queryNotFound
+theorem length_filterMap_lt {α β} (f : α → Option β) : ∀ (l : List α), (∃ a ∈ l, f a = none) →
+    (l.filterMap f).length < l.length := by
+  intro l
+  induction l with
+  | nil => intro ⟨a, ha, _⟩; simp at ha
+  | cons x rest ih =>
+    intro ⟨a, ha, hf⟩
+    have hle : (rest.filterMap f).length ≤ rest.length := List.length_filterMap_le f rest
+    rcases List.mem_cons.mp ha with h | h
+    · subst h; rw [List.filterMap_cons_none hf, List.length_cons]; omega
+    · have := ih ⟨a, h, hf⟩
+      cases hfx : f x with
+      | none => rw [List.filterMap_cons_none hfx, List.length_cons]; omega
+      | some b => rw [List.filterMap_cons_some hfx, List.length_cons, List.length_cons]; omega
 
-/-- proved for a request of one key; the general case (several keys, one missing) additionally needs
-    `length (filterMap …) < length keys`, not done -/
-theorem C09_missing_key_partial (s : Db) (hi : s.Inv) (q : QId) (id : Int) (k : Val) (h : s.dbId q = .ok id)
-    (hnone : kvFind (kvGet s.values id.natAbs) k = none) : s.selectValues [q] [k] = .error Err.queryNotFound := by
+/-- Selecting a missing key of an explicitly named element is an error (any request with distinct keys one of
+    which the element does not have). -/
+theorem C09_missing_key (s : Db) (hi : s.Inv) (q : QId) (id : Int) (keys : List Val) (k : Val)
+    (h : s.dbId q = .ok id) (hk : keys.Nodup) (hmem : k ∈ keys)
+    (hnone : kvFind (kvGet s.values id.natAbs) k = none) : s.selectValues [q] keys = .error Err.queryNotFound := by
   unfold Db.selectValues
   simp only [Db.dbIds, h]
-  have hv : valuesByKeys (kvGet s.values id.natAbs) [k] = [] := by
-    rw [C09_select_by_keys _ (hi.sinv.kvNodup _) [k] (by simp)]; simp [hnone]
-  simp [Db.selectValues.go, Db.kvOf, hv]
+  have hne : keys.isEmpty = false := by cases keys <;> simp at hmem ⊢
+  have hv := C09_select_by_keys (kvGet s.values id.natAbs) (hi.sinv.kvNodup _) keys hk
+  have hlen : (valuesByKeys (kvGet s.values id.natAbs) keys).length ≠ keys.length := by
+    rw [hv]
+    exact Nat.ne_of_lt (length_filterMap_lt _ keys ⟨k, hmem, by simp [hnone]⟩)
+  have hany : keys.any (fun k' => !((valuesByKeys (kvGet s.values id.natAbs) keys).any (fun p => decide (p.1 = k')))) = true := by
+    rw [List.any_eq_true]
+    refine ⟨k, hmem, ?_⟩
+    simp only [Bool.not_eq_true', List.any_eq_false, decide_eq_true_eq]
+    intro p hp
+    rw [hv] at hp
+    obtain ⟨k', _, hk'⟩ := List.mem_filterMap.mp hp
+    cases hf : kvFind (kvGet s.values id.natAbs) k' with
+    | none => simp [hf] at hk'
+    | some v =>
+      simp [hf] at hk'; subst hk'
+      intro h2; subst h2; rw [hnone] at hf; cases hf
+  simp only [Db.selectValues.go, Db.kvOf, hne, Bool.false_eq_true, if_false]
+  rw [if_pos ⟨hlen, hany⟩]
 
 /-! non-vacuity -/
 example : (match exState.selectValues [.alias "a", .id (-3)] [] with
